@@ -177,6 +177,36 @@ def respond (line : String) : String :=
          | none => "err panic")
        | none => "err")
     | _, _ => "bad-request"
+  | [.atom "plist", lim, .list texts, .list observed] =>
+    -- `Schema::parse_list`: every outcome the crate was seen to produce must be one the model can produce
+    -- under SOME hash order of the pending inputs
+    match atomNat? lim, texts.mapM parseJson with
+    | some lim, some texts =>
+      let outcome (r : Option (List PSchema)) : String := match r with
+        | none => "err"
+        | some l => "(ok" ++ String.join (l.map (fun s => " " ++ showJOut (toJson s))) ++ ")"
+      let possible : List String := match inputNames texts [] with
+        | none => ["err"]
+        | some named => ((perms named).map (fun p => outcome (parseListWith (defaultOk bigFuel lim) bigFuel texts (fun _ => p)))).eraseDups
+      let obs : List String := observed.map Sexp.show
+      (match obs.find? (fun o => !possible.contains o) with
+       | none => "ok"
+       | some o => s!"bad: observed {o} is none of the {possible.length} possible outcomes {possible}")
+    | _, _ => "bad-request"
+  | [.atom "pwlist", lim, schema, .list texts, .list observed] =>
+    match atomNat? lim, parseJson schema, texts.mapM parseJson with
+    | some lim, some schema, some texts =>
+      let outcome (r : Option (PSchema × List PSchema)) : String := match r with
+        | none => "err"
+        | some (m, l) => "(ok " ++ showJOut (toJson m) ++ String.join (l.map (fun s => " " ++ showJOut (toJson s))) ++ ")"
+      let possible : List String := match inputNames texts [] with
+        | none => ["err"]
+        | some named => ((perms named).map (fun p => outcome (parseStrWithList (defaultOk bigFuel lim) bigFuel schema texts (fun _ => p)))).eraseDups
+      let obs : List String := observed.map Sexp.show
+      (match obs.find? (fun o => !possible.contains o) with
+       | none => "ok"
+       | some o => s!"bad: observed {o} is none of the {possible.length} possible outcomes {possible}")
+    | _, _, _ => "bad-request"
   | [.atom "compat", w, r] =>
     match parseSchema w, parseSchema r with
     | some w, some r =>
